@@ -153,7 +153,21 @@ def predicate(R, ctx):
     listing_table(R, ctx, rd)
     family_table(R, ctx, ff)
     suffix_agreement(R, ctx)
+    whole_infix_parse(R, ctx)
     infix_tables(R, ctx)
+
+
+def whole_infix_parse(R, ctx, rule='R14.2'):
+    """the timestamp predicate accepts an infix only if the WHOLE infix is a timestamp of the configured format: a parser that
+    ignores a remainder (`parse_and_remainder`) accepts `<ts>-backup`, `<ts> (copy)`, `<ts>_old` - foreign files next to the logger's"""
+    f = ctx.f
+    b = ctx.body(r'^writers::file_log_writer::state::timestamps::timestamp_from_ts_infix$')
+    names = [callee_name(t) for (_, _, t) in calls_with_closures(f, b)]
+    rem = [n for n in names if re.search(r'parse_and_remainder$', n)]
+    full = [n for n in names if re.search(r'(NaiveDateTime|NaiveDate|DateTime<.*>)::parse_from_str$', n)]
+    R.check(rule, 'infix:Timstmps|whole-infix', bool(full) and not rem, "parsed with parse_from_str (no remainder allowed)",
+            f"timestamp_from_ts_infix parses with {sorted(set(x.split('::')[-1] for x in rem)) or 'no chrono parser'} and ignores what follows the timestamp: a foreign file whose infix merely STARTS "
+            "with a timestamp is listed, cleaned up and (direct naming with append) continued as if it were the logger's", where=b.loc())
 
 
 def suffix_agreement(R, ctx, rule='R14.2'):
